@@ -20,12 +20,12 @@ pub fn run_pass(device: &mut Device) -> anyhow::Result<()> {
         });
 
         ensure!(
-            min_address >= register_address_type.min_value(),
+            min_address >= register_address_type.min_value() as i128,
             "The register addresses go as low as {min_address}, but the selected address type `{register_address_type}` only goes down to {}. Choose an address type that can fit the full address range",
             register_address_type.min_value()
         );
         ensure!(
-            max_address <= register_address_type.max_value(),
+            max_address <= register_address_type.max_value() as i128,
             "The register addresses go as high as {max_address}, but the selected address type `{register_address_type}` only goes up to {}. Choose an address type that can fit the full address range",
             register_address_type.max_value()
         );
@@ -45,12 +45,12 @@ pub fn run_pass(device: &mut Device) -> anyhow::Result<()> {
         });
 
         ensure!(
-            min_address >= command_address_type.min_value(),
+            min_address >= command_address_type.min_value() as i128,
             "The command addresses go as low as {min_address}, but the selected address type `{command_address_type}` only goes down to {}. Choose an address type that can fit the full address range",
             command_address_type.min_value()
         );
         ensure!(
-            max_address <= command_address_type.max_value(),
+            max_address <= command_address_type.max_value() as i128,
             "The command addresses go as high as {max_address}, but the selected address type `{command_address_type}` only goes up to {}. Choose an address type that can fit the full address range",
             command_address_type.max_value()
         );
@@ -62,12 +62,12 @@ pub fn run_pass(device: &mut Device) -> anyhow::Result<()> {
         });
 
         ensure!(
-            min_address >= buffer_address_type.min_value(),
+            min_address >= buffer_address_type.min_value() as i128,
             "The buffer addresses go as low as {min_address}, but the selected address type `{buffer_address_type}` only goes down to {}. Choose an address type that can fit the full address range",
             buffer_address_type.min_value()
         );
         ensure!(
-            max_address <= buffer_address_type.max_value(),
+            max_address <= buffer_address_type.max_value() as i128,
             "The buffer addresses go as high as {max_address}, but the selected address type `{buffer_address_type}` only goes up to {}. Choose an address type that can fit the full address range",
             buffer_address_type.max_value()
         );
